@@ -27,6 +27,11 @@ type scenario struct {
 	scripts [][]sop // handles 0..n-1, all start with "open"
 	sha256  bool
 	giveUp  bool // clock advances 1 s per time.Now: reload gives up after two attempts
+	// foreign0: handle 0 is configured with the OTHER hash id (a misconfigured process on the same
+	// directory).  The protocol model has no hash ids: these traces are judged by the predicates only.
+	foreign0 bool
+	// directedOnly: only the hand-placed interleavings are run (no exploration)
+	directedOnly bool
 }
 
 func fmtScripts(sc scenario) string {
@@ -43,7 +48,11 @@ func fmtScripts(sc scenario) string {
 	for _, x := range sc.setup {
 		st = append(st, x.String())
 	}
-	return fmt.Sprintf("%d,%d|%s|%s", b2i(sc.sha256), b2i(sc.giveUp), strings.Join(st, ","), strings.Join(parts, ";"))
+	flags := fmt.Sprintf("%d,%d", b2i(sc.sha256), b2i(sc.giveUp))
+	if sc.foreign0 {
+		flags += ",foreign0"
+	}
+	return fmt.Sprintf("%s|%s|%s", flags, strings.Join(st, ","), strings.Join(parts, ";"))
 }
 
 // one execution; returns the rendered trace
@@ -61,6 +70,9 @@ func runExecution(c *ctx, sc scenario, s schedule, idx int) (string, int) {
 		se.run(schedule{})
 	}
 	e := newExec(dir, cfg, sc.scripts)
+	if sc.foreign0 {
+		e.foreign0 = true
+	}
 	if sc.giveUp {
 		e.clockStep = 2 * time.Second
 	}
@@ -241,6 +253,16 @@ func stackScenarios(which string) []scenario {
 			{{0, "remove:T", 1}, {1, "open:T", 3}, {0, "", 0}, {1, "", 0}},
 			{{0, "remove:T", 2}, {1, "open:T", 2}, {0, "", 0}, {1, "", 0}},
 		}})
+	// a process configured with the wrong hash id on the same directory: whatever it does, tables.list
+	// must keep naming only tables of the stack's hash type, and its Adds must not commit
+	out = append(out, scenario{name: "foreign-hash:add-add|add", foreign0: true, directedOnly: true,
+		scripts: [][]sop{opens(add(11), add(12), op("read")), opens(add(21), op("read"), add(22), op("read"))},
+		directed: [][]directive{
+			// the misconfigured handle opens the still empty directory, the regular one commits first
+			{{0, "call:add", 1}, {1, "call:read", 1}, {0, "", 0}, {1, "", 0}},
+			{{0, "call:add", 1}, {1, "call:read", 1}, {0, "call:add", 2}, {1, "", 0}, {0, "", 0}},
+			{{0, "call:add", 1}, {1, "", 0}, {0, "", 0}},
+		}})
 	// a multi-table Addition whose second table claims an update index the first already used: must be refused
 	out = append(out, scenario{name: "addmulti-same|add", setup: base3,
 		scripts: [][]sop{opens(sop{kind: "addmulti", tx: 15, same: true}, op("read")), opens(add(21), op("read"))}})
@@ -280,6 +302,9 @@ func runStack(c *ctx, which string) error {
 		nh := len(sc.scripts)
 		for _, d := range sc.directed {
 			emit(sc, schedule{directed: d})
+		}
+		if sc.directedOnly {
+			continue
 		}
 		// non-pre-emptive runs for every starting handle; learn the number of steps
 		total := 0
